@@ -231,6 +231,8 @@ def run(ctx):
     from .sweep import r05_13 as _r05_13, r05_14 as _r05_14
     _r05_13(ctx)
     _r05_14(ctx)
+    from .sweep import r05_15 as _r05_15
+    _r05_15(ctx)
     from .sweep import r01_17 as _r01_17c
     from ..report import Only as _OnlyS5
     _r01_17c(_OnlyS5(ctx, ('on_hard_timeout:',), floor=1, doc='the hard-limit failure is a record of a live TimeLimitExceeded'), 'R05.12')
@@ -265,6 +267,7 @@ def run(ctx):
 
 _P = 'billiard/pool.py'
 MUTANTS = [
+    ('own-limit-does-not-start-the-scanner', 'billiard/pool.py', '            if timeout or soft_timeout:\n                # start the timeout handler thread when required.\n                self._start_timeout_handler()\n', '', 'R05.15'),
     ('scan-yields-after-each-kill', _P, "                    on_hard_timeout(job)\n                elif i not in dirty", "                    on_hard_timeout(job)\n                    yield\n                elif i not in dirty", 'R05.10'),
     ('hard-limit-pushed-behind-soft', _P, "        timeout = timeout or self.timeout\n", "        timeout = timeout or self.timeout\n        if soft_timeout and timeout and soft_timeout >= timeout:\n            timeout = soft_timeout + 1.0\n", 'R05.11'),
     ('scanner-snapshots-the-worker-list', _P, "        self.processes = processes\n", "        self.processes = list(processes)\n", 'R05.8'),
